@@ -1,6 +1,7 @@
 import MoSql.Gen.Lexemes
 import MoSql.Ref
 import MoSql.Lemmas.ScriptProps
+import MoSql.Lemmas.ManyCommandProps
 /-!
 C13 — a script parses to the list of its statements' trees.
 Model: `MoSql.Script` (`parse_delimiters` and the accumulation loop of `_parse`).
@@ -52,6 +53,22 @@ theorem directive_scoped (fuel : Nat) (sql delim : List Char) (st en : Nat) (g :
       ++ [Piece.directive ((sql.drop st).take (en - st))]
       ++ parseDelimiters fuel (sql.drop en) (strip g) := by
   simp [parseDelimiters, h]
+
+/-- **`;`-separated statements, any number of them**: leading semicolons, any run of one or more
+semicolons between statements (doubled separators included), any trailing run — the grammar's
+`many_command` returns exactly the statements, in order.  (A `;` inside a literal, a quoted name or a
+comment is not a separator token; that is the lexer's doing and is exercised by the oracle.) -/
+theorem many_split {S : Type} (lead : Nat) (xs : List (S × Nat)) (h : ManyCommand.separated xs = true) :
+    ManyCommand.manyCommand (ManyCommand.semis lead ++ ManyCommand.body xs) = some (xs.map (·.1)) := by
+  unfold ManyCommand.manyCommand
+  rw [ManyCommand.go_semis0, ManyCommand.go_body xs h]
+
+/-- two statements without a separator are not a script (parse_all fails), and the hypothesis of
+`many_split` is met by a script with leading, doubled and trailing separators -/
+example : ManyCommand.manyCommand [ManyCommand.Tk.stmt 1, .stmt 2] = none
+    ∧ ManyCommand.separated [(1, 2), (2, 1), (3, 0)] = true
+    ∧ ManyCommand.manyCommand (ManyCommand.semis 2 ++ ManyCommand.body [(1, 2), (2, 1), (3, 3)]) = some [1, 2, 3] := by
+  decide
 
 /-- the full statement is false: the textual split ignores quoting (witness: a literal
 containing `$$⏎` under `DELIMITER $$` is cut in the middle) -/
